@@ -247,3 +247,123 @@ func VH_C14_db() {
 		vAssert("C14.db.all_isolated", ok && got == x)
 	}
 }
+
+// vhShapeDescribe: nil-ness, length and payload of one container of o.
+func vhShapeDescribe(o *vShape, shape string) (isNil bool, n int, payload int64) {
+	switch shape {
+	case "PS":
+		if o.PS == nil {
+			return true, 0, 0
+		}
+		return false, 1, *o.PS
+	case "PT":
+		if o.PT == nil {
+			return true, 0, 0
+		}
+		return false, 1, o.PT.X
+	case "SS":
+		if len(o.SS) > 0 {
+			payload = o.SS[0]
+		}
+		return o.SS == nil, len(o.SS), payload
+	case "SP":
+		if len(o.SP) > 0 && o.SP[0] != nil {
+			payload = o.SP[0].X
+		}
+		return o.SP == nil, len(o.SP), payload
+	case "M":
+		if p := o.M["k"]; p != nil {
+			payload = p.X
+		}
+		return o.M == nil, len(o.M), payload
+	case "MS":
+		if l := o.MS["k"]; len(l) > 0 {
+			payload = l[0]
+		}
+		return o.MS == nil, len(o.MS), payload
+	case "N.L":
+		if len(o.N.L) > 0 {
+			payload = o.N.L[0]
+		}
+		return o.N.L == nil, len(o.N.L), payload
+	case "N.P":
+		if o.N.P == nil {
+			return true, 0, 0
+		}
+		return false, 1, o.N.P.X
+	}
+	panic("vhShapeDescribe")
+}
+
+// VH_C14_cache_vs_file: "a cached read returns a value equal to what a round
+// trip through the file returns": every container shape in its nil, empty
+// and non-empty state (payload symbolic) is stored with the cache (or the
+// pending store) on; the read served from memory and the read served from the
+// file by a fresh handle must agree on nil-ness, length and payload — also
+// for the element containers nested one level down (a nil inner slice / a nil
+// pointer element).
+func VH_C14_cache_vs_file() {
+	cfg := vhCfgs[[]int{1, 3}[vChoice("cfg", 2)]]
+	shapes := []string{"PS", "PT", "SS", "SP", "M", "MS", "N.L", "N.P"}
+	shape := shapes[vChoice("shape", len(shapes))]
+	x := vInt64("x")
+	src := &vShape{I: 5}
+	switch vChoice("state", 4) {
+	case 0: // nil: nothing to do
+	case 1: // empty (containers only)
+		switch shape {
+		case "SS":
+			src.SS = []int64{}
+		case "SP":
+			src.SP = []*vShIn{}
+		case "M":
+			src.M = map[string]*vShIn{}
+		case "MS":
+			src.MS = map[string][]int64{}
+		case "N.L":
+			src.N.L = []int64{}
+		}
+	case 2: // non-empty
+		vhShapeBuild(src, shape, x)
+	case 3: // non-empty holding a nil / empty element
+		switch shape {
+		case "SP":
+			src.SP = []*vShIn{nil}
+		case "M":
+			src.M = map[string]*vShIn{"k": nil}
+		case "MS":
+			src.MS = map[string][]int64{"k": nil, "e": {}}
+		default:
+			vhShapeBuild(src, shape, x)
+		}
+	}
+	root := vTempDir()
+	db := Open(root)
+	vAssert("C14.cvf.create", db.Create(&vShape{}, vhSchema(cfg)) == nil)
+	vAssert("C14.cvf.insert", db.InsertOrUpdate(src) == nil)
+	rc, err := db.GetByUUID(&vShape{}, src.UUID())
+	vAssert("C14.cvf.get_cached", err == nil)
+	vAssert("C14.cvf.close", db.Close() == nil)
+	rf, ferr := Open(root).GetByUUID(&vShape{}, src.UUID())
+	vAssert("C14.cvf.get_file", ferr == nil)
+	if err != nil || ferr != nil {
+		return
+	}
+	cn, cl, cp := vhShapeDescribe(rc.(*vShape), shape)
+	fn, fl, fp := vhShapeDescribe(rf.(*vShape), shape)
+	vAssert("C14.cvf.same_nilness", cn == fn)
+	vAssert("C14.cvf.same_length", cl == fl)
+	vAssert("C14.cvf.same_payload", cp == fp)
+	if shape == "MS" {
+		c, f := rc.(*vShape).MS, rf.(*vShape).MS
+		ck, cok := c["k"]
+		fk, fok := f["k"]
+		vAssert("C14.cvf.inner_nil_slice", cok == fok && (ck == nil) == (fk == nil))
+		ce, ceok := c["e"]
+		fe, feok := f["e"]
+		vAssert("C14.cvf.inner_empty_slice", ceok == feok && (ce == nil) == (fe == nil))
+	}
+	if shape == "SP" && cl == 1 && fl == 1 {
+		vAssert("C14.cvf.inner_nil_pointer", (rc.(*vShape).SP[0] == nil) == (rf.(*vShape).SP[0] == nil))
+	}
+}
